@@ -4,7 +4,7 @@
    discharged below for the executable surrogate pow_s (which coincides with
    exact exponentiation at integer exponents). *)
 From Coq Require Import QArith Qminmax Qround Qpower Lqa Lia List Bool Setoid Morphisms.
-From WSI Require Import Vqip CoreLaws.
+From WSI Require Import Vqip Pow CoreLaws.
 From WSI.gen Require Import GenCore.
 Import ListNotations.
 Open Scope Q_scope.
@@ -156,65 +156,9 @@ Proof.
 Qed.
 End Decay.
 
-(* ---- the executable surrogate for `**` and its two properties ---- *)
-Definition pow_s (b e : Q) : Q :=
-  let n := Qfloor e in
-  Qred (Qpower b n * (1 + (e - inject_Z n) * (b - 1))).
+Theorem decay_pure a d T : gen_generic_temperature_decay_after a d T = a.
+Proof. unfold gen_generic_temperature_decay_after. apply eta. Qed.
+Theorem decay_c_pure a d T : gen_generic_temperature_decay_c_after a d T = a.
+Proof. unfold gen_generic_temperature_decay_c_after. apply eta. Qed.
 
-Lemma Qpower_pos_lt b n : 0 < b -> 0 < Qpower b n.
-Proof.
-  intros Hb.
-  assert (Hp : forall p, 0 < Qpower_positive b p).
-  { intros p. pose proof (Qpower_pos_positive b p (Qlt_le_weak _ _ Hb)) as H0.
-    assert (H1 : ~ Qpower_positive b p == 0) by (apply Qpower_not_0_positive; lra).
-    destruct (Qlt_le_dec 0 (Qpower_positive b p)) as [H|H]; [exact H|].
-    exfalso; apply H1; lra. }
-  destruct n as [|p|p]; cbn [Qpower]; [lra | apply Hp | apply Qinv_lt_0_compat, Hp].
-Qed.
-Lemma frac_part_range e : 0 <= e - inject_Z (Qfloor e) < 1.
-Proof.
-  pose proof (Qfloor_le e) as Hl. pose proof (Qlt_floor e) as Hu.
-  rewrite inject_Z_plus in Hu. change (inject_Z 1) with 1 in Hu. split; lra.
-Qed.
-Lemma pow_s_pos e x : 0 < e -> 0 < pow_s e x.
-Proof.
-  intros He. unfold pow_s. rewrite Qred_correct.
-  pose proof (Qpower_pos_lt e (Qfloor x) He) as Hp. pose proof (frac_part_range x) as [Hf0 Hf1].
-  apply Qmult_lt_0_compat; [exact Hp|]. nra.
-Qed.
-Lemma pow_s_integer b (z : Z) : pow_s b (inject_Z z) == Qpower b z.
-Proof.
-  unfold pow_s. rewrite Qred_correct. rewrite Qfloor_Z. ring.
-Qed.
 
-Lemma Qpower_ge1 b k : 1 <= b -> (0 <= k)%Z -> 1 <= Qpower b k.
-Proof.
-  intros Hb Hk. pattern k. apply natlike_ind; [cbn; lra | | exact Hk].
-  intros z Hz IH. unfold Z.succ. rewrite Qpower_plus by lra.
-  change (Qpower b 1) with b. nra.
-Qed.
-Lemma Qpower_mono_exp b n m : 1 <= b -> (n <= m)%Z -> Qpower b n <= Qpower b m.
-Proof.
-  intros Hb Hnm. replace m with (n + (m - n))%Z by lia. rewrite Qpower_plus by lra.
-  pose proof (Qpower_ge1 b (m - n) Hb ltac:(lia)) as H1.
-  pose proof (Qpower_pos_lt b n ltac:(lra)) as H2. nra.
-Qed.
-Lemma pow_s_mono e x y : 1 <= e -> x <= y -> pow_s e x <= pow_s e y.
-Proof.
-  intros He Hxy. unfold pow_s. rewrite !Qred_correct.
-  pose proof (Qfloor_resp_le x y Hxy) as Hfl.
-  pose proof (frac_part_range x) as [Hx0 Hx1]. pose proof (frac_part_range y) as [Hy0 Hy1].
-  set (n := Qfloor x) in *. set (m := Qfloor y) in *.
-  pose proof (Qpower_pos_lt e n ltac:(lra)) as Pn.
-  pose proof (Qpower_pos_lt e m ltac:(lra)) as Pm.
-  destruct (Z.eq_dec n m) as [E|NE].
-  - rewrite <- E in *. apply Qmult_le_l; [exact Pn|]. nra.
-  - assert (Hlt : (n + 1 <= m)%Z) by lia.
-    pose proof (Qpower_mono_exp e (n + 1) m He Hlt) as Hm.
-    rewrite Qpower_plus in Hm by lra. change (Qpower e 1) with e in Hm.
-    assert (A1 : 1 + (x - inject_Z n) * (e - 1) <= e) by nra.
-    assert (A2 : 1 <= 1 + (y - inject_Z m) * (e - 1)) by nra.
-    apply Qle_trans with (Qpower e n * e); [apply Qmult_le_l; assumption|].
-    apply Qle_trans with (Qpower e m); [exact Hm|].
-    rewrite <- (Qmult_1_r (Qpower e m)) at 1. apply Qmult_le_l; assumption.
-Qed.
